@@ -264,6 +264,33 @@ theorem carried_table_same_score (g : Game P) (ex : P → Explore) (le : LeafEva
       (alphabeta g ex le rootPly d p negInfScore infScore st0).1 :=
   (C11.transparent g ex le rootPly hev hh hrf d hd p st hs hc st0 h0 hc0).2
 
+/-- **seed_independent, with a table on each side.** Two engines show the same game, hashed with two different Zobrist
+tables `z1`, `z2`, and each searches over its *own* transposition table (`st1.tt`, `st2.tt`: any size, any content that
+is sound for its own game on the region `R1` / `R2` its search explores - C11's hypotheses, in the region form that chess
+trees satisfy: `C11.transparent_on`, instantiated on chess in `Proofs/ABChessTree.lean` - e.g. what its earlier searches
+left, `C11.sound_preserved_on`; a fresh table is sound). At the
+full window and without cancellation the two root scores are equal: by `C11.transparent` each equals the score of its
+table-free search, and those agree by `seed_independent_alphabeta`. (Node counts and PVs are not claimed: which entries
+collide depends on the seed.) -/
+theorem seed_independent_with_tables {z1 z2 : ZTable} (hz1 : z1.enpassant 0 = 0) (hz2 : z2.enpassant 0 = 0)
+    (ev : Position → Color → Int) (ex : World → Explore) (le : LeafEval World)
+    (hex : ExRel (SeedRel z1 z2) ex ex) (hle : LeRel (SeedRel z1 z2) le le) (rootPly : Int) {n : Nat} {w1 w2 : World}
+    (h : SeedRel z1 z2 n w1 w2) (d : Nat) (hn : d + leafDepth le ≤ n)
+    (hev1 : Proofs.AB.EvalOk (boardGame z1 ev)) (hev2 : Proofs.AB.EvalOk (boardGame z2 ev))
+    {R1 R2 : Nat → World → Prop} (hcl1 : Proofs.AB.Closed (boardGame z1 ev) ex R1)
+    (hcl2 : Proofs.AB.Closed (boardGame z2 ev) ex R2)
+    (hh1 : Proofs.AB.HashOKOn (boardGame z1 ev) ex le R1) (hh2 : Proofs.AB.HashOKOn (boardGame z2 ev) ex le R2)
+    (hrf1 : Proofs.AB.RootFreeOn (boardGame z1 ev) R1 rootPly) (hrf2 : Proofs.AB.RootFreeOn (boardGame z2 ev) R2 rootPly)
+    (hp1 : R1 d w1) (hp2 : R2 d w2)
+    (hd : Proofs.AB.leafGrade le + d ≤ 127) (st1 st2 : SState)
+    (hs1 : Proofs.AB.SoundOn (boardGame z1 ev) ex le R1 st1.tt) (hs2 : Proofs.AB.SoundOn (boardGame z2 ev) ex le R2 st2.tt)
+    (hc1 : st1.cancelAt = none) (hc2 : st2.cancelAt = none) :
+    (alphabeta (boardGame z1 ev) ex le rootPly d w1 negInfScore infScore st1).1 =
+      (alphabeta (boardGame z2 ev) ex le rootPly d w2 negInfScore infScore st2).1 := by
+  have e1 := (C11.transparent_on (boardGame z1 ev) ex le rootPly hev1 hcl1 hh1 hrf1 d hd w1 hp1 st1 hs1 hc1 {} rfl rfl).2
+  have e2 := (C11.transparent_on (boardGame z2 ev) ex le rootPly hev2 hcl2 hh2 hrf2 d hd w2 hp2 st2 hs2 hc2 {} rfl rfl).2
+  rw [e1, e2, seed_independent_alphabeta hz1 hz2 ev ex le hex hle rootPly h d hn negInfScore infScore {} rfl]
+
 /-! ## 4. analysis never alters the engine's game -/
 
 /-- **analysis_isolated.** Fork board 0 of the engine's world `w` (as `Engine.Analyze` does) and let the search do
